@@ -13,6 +13,7 @@ package main
 import (
 	"context"
 	"encoding/json"
+	"errors"
 	"fmt"
 	"os"
 	"runtime"
@@ -36,6 +37,9 @@ type scenario struct {
 	HolderMaxMs  int    `json:"holder_max_ms,omitempty"`
 	RetryStartMs int    `json:"retry_start_ms"`
 	Seed         uint64 `json:"seed"`
+	// deterministic caller-budget scenarios (kind stalled, the holder owns the node locks for the whole wait):
+	CancelMs int    `json:"cancel_ms,omitempty"` // the writers' context is cancelled after this many ms
+	Expect   string `json:"expect,omitempty"`    // deadline | cancel | maxtime: which budget must end the wait
 }
 
 const nKeys = 48
@@ -48,10 +52,13 @@ type stats struct {
 	handles  map[string]int
 	rounds   map[string]int
 	lockKeys map[string]map[string]bool // node lock key names requested, per transaction
+	seg      map[string]int             // calls since the transaction's last node-lock attempt
+	segMax   map[string]int             // largest such segment (pre-loop, one loop round, or body+post+rollback+phase 2)
+	latency  time.Duration              // largest timer overshoot seen by the probe goroutine (scheduling noise)
 }
 
 func newStats() *stats {
-	return &stats{start: map[*sopx.Event]time.Time{}, maxCall: map[string]time.Duration{}, calls: map[string]int{}, handles: map[string]int{}, rounds: map[string]int{}, lockKeys: map[string]map[string]bool{}}
+	return &stats{start: map[*sopx.Event]time.Time{}, maxCall: map[string]time.Duration{}, calls: map[string]int{}, handles: map[string]int{}, rounds: map[string]int{}, lockKeys: map[string]map[string]bool{}, seg: map[string]int{}, segMax: map[string]int{}}
 }
 
 // model constants (Gen/TimeoutConsts.v: unit 20 ms, multiplier 1..4; fibonacci total 12)
@@ -133,6 +140,16 @@ func runScenario(res *hx.Result, sc scenario, idx int) {
 			delete(st.start, ev)
 		}
 		st.calls[ev.Txn]++
+		if ev.Iface == "l2" && ev.Method == "Lock" {
+			if st.seg[ev.Txn] > st.segMax[ev.Txn] {
+				st.segMax[ev.Txn] = st.seg[ev.Txn]
+			}
+			st.seg[ev.Txn] = 0
+		}
+		st.seg[ev.Txn]++
+		if st.seg[ev.Txn] > st.segMax[ev.Txn] {
+			st.segMax[ev.Txn] = st.seg[ev.Txn]
+		}
 		if ev.Iface == "reg" && ev.Method != "Get" {
 			st.handles[ev.Txn] += len(ev.Handles) + len(ev.IDs)
 		}
@@ -149,8 +166,28 @@ func runScenario(res *hx.Result, sc scenario, idx int) {
 		}
 		st.mu.Unlock()
 	}
-	e.Rec.Mute["l2.GetStruct"] = true
-	e.Rec.Mute["l2.GetStructEx"] = true
+	// scheduling-noise probe: how late a 1 ms timer fires while the scenario runs; added to the per-call bound so that
+	// a loaded machine can only widen the allowance, never produce an alarm
+	probeStop := make(chan struct{})
+	defer close(probeStop)
+	go func() {
+		for {
+			select {
+			case <-probeStop:
+				return
+			default:
+			}
+			t0 := time.Now()
+			time.Sleep(time.Millisecond)
+			if over := time.Since(t0) - time.Millisecond; over > 0 {
+				st.mu.Lock()
+				if over > st.latency {
+					st.latency = over
+				}
+				st.mu.Unlock()
+			}
+		}
+	}()
 	e.Rec.Arm()
 
 	prepare := func(label string, maxTime time.Duration, keys []int) (*sopx.Txn, error) {
@@ -232,6 +269,13 @@ func runScenario(res *hx.Result, sc scenario, idx int) {
 			if sc.DeadlineMs > 0 {
 				var cancel context.CancelFunc
 				cctx, cancel = context.WithTimeout(ctx, time.Duration(sc.DeadlineMs)*time.Millisecond)
+				defer cancel()
+			}
+			if sc.CancelMs > 0 {
+				var cancel context.CancelFunc
+				cctx, cancel = context.WithCancel(cctx)
+				tm := time.AfterFunc(time.Duration(sc.CancelMs)*time.Millisecond, cancel)
+				defer tm.Stop()
 				defer cancel()
 			}
 			t0 := time.Now()
@@ -327,7 +371,7 @@ func runScenario(res *hx.Result, sc scenario, idx int) {
 				// the message text is the only discriminator between an item lock record and anything else
 				released = false
 				res.Fail("item-lock-records-left-behind", fmt.Sprintf("follow-up transaction on the same keys: err=%v after %v (maxTime of the writers %v, any writer failed=%v)", err, el, maxTime, anyErr), sc)
-			case sc.DeadlineMs > 0 && strings.Contains(err.Error(), "exceeded retry limit"):
+			case sc.DeadlineMs > 0 && sc.Expect == "" && strings.Contains(err.Error(), "exceeded retry limit"):
 				// not a lock: a writer whose context expired mid-commit rolls back under the expired context and
 				// cannot undo its registry claims (inactive ids with a fresh timestamp); the next writer of those
 				// nodes is refused for the IsExpiredInactive window.  Recorded under C07/C08
@@ -346,17 +390,24 @@ func runScenario(res *hx.Result, sc scenario, idx int) {
 
 	for _, o := range got {
 		st.mu.Lock()
-		cc := int64(st.maxCall[o.Label]/time.Millisecond) + 1
-		nc := int64(st.calls[o.Label])
+		// per-call bound = largest measured call + largest measured scheduling delay; call count = the largest number of
+		// calls between two node-lock attempts (the model charges pre, one round, post and rollback separately)
+		cc := int64((st.maxCall[o.Label]+st.latency)/time.Millisecond) + 1
+		nc := int64(st.segMax[o.Label])
+		total := st.calls[o.Label]
 		nh := int64(st.handles[o.Label])
 		rounds := int64(st.rounds[o.Label])
 		st.mu.Unlock()
 		limit := int64(sc.MaxTimeMs)
 		dl := "None"
-		if sc.DeadlineMs > 0 {
-			dl = fmt.Sprintf("(Some %s)", hx.CoqZ(int64(sc.DeadlineMs)))
-			if int64(sc.DeadlineMs) < limit {
-				limit = int64(sc.DeadlineMs)
+		budget := int64(sc.DeadlineMs)
+		if sc.CancelMs > 0 && (budget == 0 || int64(sc.CancelMs) < budget) {
+			budget = int64(sc.CancelMs) // a cancelled context is a deadline at the moment of cancellation
+		}
+		if budget > 0 {
+			dl = fmt.Sprintf("(Some %s)", hx.CoqZ(budget))
+			if budget < limit {
+				limit = budget
 			}
 		}
 		B := overheadB(cc, nh, nc, 0, int64(sc.RetryStartMs))
@@ -368,8 +419,26 @@ func runScenario(res *hx.Result, sc scenario, idx int) {
 		}
 		res.Count(fmt.Sprintf("rounds.%d", bucket(int(rounds))))
 		if el > limit+B {
-			res.Fail("overshoot:"+sc.Kind, fmt.Sprintf("%s: Commit took %d ms; min(deadline, maxTime) = %d ms, B = %d ms (measured per-call max %d ms, %d calls, %d handles); err=%v", o.Label, el, limit, B, cc, nc, nh, o.Err), sc)
+			res.Fail("overshoot:"+sc.Kind, fmt.Sprintf("%s: Commit took %d ms; min(deadline, maxTime) = %d ms, B = %d ms (measured per-call max incl. scheduling delay %d ms, at most %d calls between two lock attempts, %d handles); err=%v", o.Label, el, limit, B, cc, nc, nh, o.Err), sc)
 		}
+		if sc.Expect != "" {
+			res.Count("expect." + sc.Expect)
+			// the holder owns the node locks during the whole wait: the writer can only leave through its budget
+			var te sop.ErrTimeout
+			good := false
+			switch sc.Expect {
+			case "deadline":
+				good = errors.Is(o.Err, context.DeadlineExceeded)
+			case "cancel":
+				good = errors.Is(o.Err, context.Canceled)
+			case "maxtime":
+				good = errors.As(o.Err, &te) && te.Cause == nil
+			}
+			if !good {
+				res.Fail("wrong-give-up-reason:"+sc.Expect, fmt.Sprintf("%s: Commit returned %v after %d ms; the holder owned the node locks throughout, so the wait had to end by %s (budget %d ms, maxTime %d ms)", o.Label, o.Err, el, sc.Expect, budget, sc.MaxTimeMs), sc)
+			}
+		}
+		_ = total
 		if rounds > int64(sc.MaxTimeMs)/20+1 {
 			res.Fail("too-many-rounds:"+sc.Kind, fmt.Sprintf("%s: %d lock rounds within maxTime %d ms", o.Label, rounds, sc.MaxTimeMs), sc)
 		}
@@ -420,6 +489,11 @@ func runC15(cfg *hx.RunCfg) (*hx.Result, error) {
 		scenario{Kind: "opposite", Writers: 6, MaxTimeMs: 1500, DeadlineMs: 300, RetryStartMs: 5},
 		scenario{Kind: "stalled", Writers: 2, MaxTimeMs: 1000, HolderMaxMs: 20000, RetryStartMs: 5},
 		scenario{Kind: "stalled", Writers: 4, MaxTimeMs: 1000, DeadlineMs: 400, HolderMaxMs: 20000, RetryStartMs: 5},
+		// caller budgets, deterministic: the stalled holder owns the node locks for the whole wait, the writer's own
+		// maxTime is far away (or, for maxtime, the deadline is)
+		scenario{Kind: "stalled", Writers: 1, MaxTimeMs: 8000, DeadlineMs: 300, HolderMaxMs: 60000, RetryStartMs: 5, Expect: "deadline"},
+		scenario{Kind: "stalled", Writers: 2, MaxTimeMs: 8000, CancelMs: 250, HolderMaxMs: 60000, RetryStartMs: 5, Expect: "cancel"},
+		scenario{Kind: "stalled", Writers: 1, MaxTimeMs: 400, DeadlineMs: 8000, HolderMaxMs: 60000, RetryStartMs: 5, Expect: "maxtime"},
 		scenario{Kind: "killed", Writers: 2, MaxTimeMs: 2000, HolderMaxMs: 1000, RetryStartMs: 5},
 		scenario{Kind: "killed", Writers: 3, MaxTimeMs: 1000, HolderMaxMs: 3000, RetryStartMs: 5},
 	)
@@ -436,6 +510,19 @@ func runC15(cfg *hx.RunCfg) (*hx.Result, error) {
 				if k == "killed" && sc.HolderMaxMs > 3000 {
 					sc.HolderMaxMs = 3000
 				}
+			}
+			scs = append(scs, sc)
+		}
+		for i := 0; i < 6; i++ {
+			ex := []string{"deadline", "cancel", "maxtime"}[i%3]
+			sc := scenario{Kind: "stalled", Writers: 1 + r.Intn(3), MaxTimeMs: 6000 + 1000*r.Intn(4), HolderMaxMs: 60000, RetryStartMs: 5, Seed: uint64(100 + i), Expect: ex}
+			switch ex {
+			case "deadline":
+				sc.DeadlineMs = 150 + 50*r.Intn(8)
+			case "cancel":
+				sc.CancelMs = 150 + 50*r.Intn(8)
+			case "maxtime":
+				sc.DeadlineMs, sc.MaxTimeMs = sc.MaxTimeMs, 200+100*r.Intn(5)
 			}
 			scs = append(scs, sc)
 		}
